@@ -21,7 +21,7 @@ static long budget;
 #define BUDGET 20000
 
 typedef struct { long pos, L; long long ss[64]; int nss, is; long calls; } SrcD;
-typedef struct { unsigned char got[512]; long n; long long ks[64]; int nks, ik; long calls; } SnkD;
+typedef struct { unsigned char got[8192]; long n; long long ks[64]; int nks, ik; long calls; } SnkD;
 
 static long amount(long long b, long want)
 {
